@@ -131,11 +131,11 @@ theorem readSignature_congr (E : Env) {files files' : Files} (h : ∀ n ∈ sigL
   | panic x => rfl
   | diverge => rfl
 
-/-- **the verdict depends on the package only through the names in `lookups`** -/
-theorem verifyF_congr (E : Env) {files files' : Files} (h : ∀ n ∈ lookups E files, files' n = files n) :
-    verifyF E files' = verifyF E files := by
+/-- the part of `verify` before the walk over the archive depends on the package only through the names in `lookups` -/
+theorem verifyCore_congr (E : Env) {files files' : Files} (h : ∀ n ∈ lookups E files, files' n = files n) :
+    verifyCore E files' = verifyCore E files := by
   have hs := readSignature_congr E (files := files) (files' := files') (fun n hn => h n (by simp [lookups, hn]))
-  unfold verifyF
+  unfold verifyCore
   rw [hs]
   cases hr : readSignature E files with
   | ok sc =>
@@ -150,6 +150,37 @@ theorem verifyF_congr (E : Env) {files files' : Files} (h : ∀ n ∈ lookups E 
   | err x => rfl
   | panic x => rfl
   | diverge => rfl
+
+theorem uncovered_congr {names names' : List Bytes} (h : ∀ n, keepFile n = true → (n ∈ names' ↔ n ∈ names)) (checked : List (Bytes × Bytes)) :
+    uncovered names' checked = uncovered names checked := by
+  have key : ∀ a b : List Bytes, (∀ n, keepFile n = true → (n ∈ a → n ∈ b)) → uncovered a checked = true → uncovered b checked = true := by
+    intro a b hab hu
+    simp only [uncovered, List.any_eq_true, Bool.and_eq_true, Bool.not_eq_true'] at hu ⊢
+    obtain ⟨n, hn, hk, hc⟩ := hu
+    exact ⟨n, hab n hk hn, hk, hc⟩
+  cases h1 : uncovered names checked with
+  | true => exact key _ _ (fun n hk => (h n hk).mpr) h1
+  | false =>
+    cases h2 : uncovered names' checked with
+    | true => rw [key _ _ (fun n hk => (h n hk).mp) h2] at h1; cases h1
+    | false => rfl
+
+/-- **the verdict depends on the package only through the members under the names in `lookups`** and, for the repaired
+    verifier, through which payload names (`keepFile`) occur at all -/
+theorem verifyF_congr (fx : Bool) (E : Env) {files files' : Files} {names names' : List Bytes}
+    (h : ∀ n ∈ lookups E files, files' n = files n)
+    (hn : fx = true → ∀ n, keepFile n = true → (n ∈ names' ↔ n ∈ names)) :
+    verifyF fx E files' names' = verifyF fx E files names := by
+  unfold verifyF
+  rw [verifyCore_congr E h]
+  cases fx with
+  | false => rfl
+  | true =>
+    cases hc : verifyCore E files with
+    | ok r => simp only [Bool.true_and, uncovered_congr (hn rfl) r.2.2]
+    | err x => rfl
+    | panic x => rfl
+    | diverge => rfl
 
 /-! ### what acceptance implies -/
 
@@ -187,40 +218,93 @@ theorem checkRefs_ok_inv (E : Env) (files : Files) : ∀ (refs : List RefInfo) (
           | panic x => simp [hrest] at hl
           | diverge => simp [hrest] at hl
 
-theorem verifyF_ok_inv (E : Env) (files : Files) (v : Verdict) (hv : verifyF E files = .ok v) :
-    ∃ sc o, readSignature E files = .ok sc ∧ E.xopen sc.1 sc.2 = .ok o ∧
-      checkRefs E files (decodeManifest o.reference) = .ok v.checked ∧ o.ts = none ∧ v.hash = o.hash ∧ v.key = o.key ∧
-      v.key ∈ sc.2 ++ o.embedded := by
-  unfold verifyF at hv
+/-- the names in the verdict are the names the references map to, in order -/
+theorem checkRefs_names (E : Env) (files : Files) : ∀ (refs : List RefInfo) (l : List (Bytes × Bytes)), checkRefs E files refs = .ok l →
+    l.map (·.1) = refLookups refs := by
+  intro refs
+  induction refs with
+  | nil => intro l h; simp only [checkRefs, Res.ok.injEq] at h; subst h; rfl
+  | cons r0 rs ih =>
+    intro l hl
+    simp only [checkRefs] at hl
+    cases hf : files (uriPath r0.uri) with
+    | none => simp [hf] at hl
+    | some f =>
+      simp only [hf] at hl
+      cases hh : hashOfName (stripNs r0.digestAlg) with
+      | none => simp [hh] at hl
+      | some h =>
+        simp only [hh] at hl
+        cases hd : E.digestCmp h f.data r0.digestValue with
+        | badB64 => simp [hd] at hl
+        | mismatch => simp [hd] at hl
+        | ok =>
+          simp only [hd] at hl
+          cases hrest : checkRefs E files rs with
+          | ok rest =>
+            simp only [hrest, Res.ok.injEq] at hl
+            subst hl
+            have := ih rest hrest
+            simp only [refLookups] at this
+            simp [refLookups, this]
+          | err x => simp [hrest] at hl
+          | panic x => simp [hrest] at hl
+          | diverge => simp [hrest] at hl
+
+theorem verifyCore_ok_inv (E : Env) (files : Files) (r : (Bytes × List Bytes) × Opened × List (Bytes × Bytes))
+    (h : verifyCore E files = .ok r) :
+    readSignature E files = .ok r.1 ∧ E.xopen r.1.1 r.1.2 = .ok r.2.1 ∧ checkRefs E files (decodeManifest r.2.1.reference) = .ok r.2.2 := by
+  unfold verifyCore at h
   cases hr : readSignature E files with
   | ok sc =>
-    simp only [hr] at hv
+    simp only [hr] at h
     cases ho : E.xopen sc.1 sc.2 with
     | ok o =>
-      simp only [ho] at hv
+      simp only [ho] at h
       cases hc : checkRefs E files (decodeManifest o.reference) with
       | ok checked =>
-        simp only [hc] at hv
-        cases ht : o.ts with
-        | some e => simp [ht] at hv
-        | none =>
-          simp only [ht] at hv
-          by_cases hl : (sc.2 ++ o.embedded).any (fun k => k = o.key) = true
-          · simp only [hl, if_true, Res.ok.injEq] at hv
-            subst hv
-            refine ⟨sc, o, rfl, ho, hc, ht, rfl, rfl, ?_⟩
-            simp only [List.any_eq_true, decide_eq_true_eq] at hl
+        simp only [hc, Res.ok.injEq] at h
+        subst h
+        exact ⟨rfl, ho, hc⟩
+      | err x => simp [hc] at h
+      | panic x => simp [hc] at h
+      | diverge => simp [hc] at h
+    | err x => simp [ho] at h
+    | panic x => simp [ho] at h
+    | diverge => simp [ho] at h
+  | err x => simp [hr] at h
+  | panic x => simp [hr] at h
+  | diverge => simp [hr] at h
+
+theorem verifyF_ok_inv (fx : Bool) (E : Env) (files : Files) (names : List Bytes) (v : Verdict) (hv : verifyF fx E files names = .ok v) :
+    ∃ sc o, readSignature E files = .ok sc ∧ E.xopen sc.1 sc.2 = .ok o ∧
+      checkRefs E files (decodeManifest o.reference) = .ok v.checked ∧ o.ts = none ∧ v.hash = o.hash ∧ v.key = o.key ∧
+      v.key ∈ sc.2 ++ o.embedded ∧ (fx = true → uncovered names v.checked = false) := by
+  unfold verifyF at hv
+  cases hc : verifyCore E files with
+  | ok r =>
+    simp only [hc] at hv
+    obtain ⟨h1, h2, h3⟩ := verifyCore_ok_inv E files r hc
+    by_cases hu : (fx && uncovered names r.2.2) = true
+    · simp [hu] at hv
+    · simp only [hu, Bool.false_eq_true, if_false] at hv
+      cases ht : r.2.1.ts with
+      | some e => simp [ht] at hv
+      | none =>
+        simp only [ht] at hv
+        by_cases hl : (r.1.2 ++ r.2.1.embedded).any (fun k => k = r.2.1.key) = true
+        · simp only [hl, if_true, Res.ok.injEq] at hv
+          subst hv
+          refine ⟨r.1, r.2.1, h1, h2, h3, ht, rfl, rfl, ?_, ?_⟩
+          · simp only [List.any_eq_true, decide_eq_true_eq] at hl
             obtain ⟨k, hk, rfl⟩ := hl
             exact hk
-          · simp [hl] at hv
-      | err x => simp [hc] at hv
-      | panic x => simp [hc] at hv
-      | diverge => simp [hc] at hv
-    | err x => simp [ho] at hv
-    | panic x => simp [ho] at hv
-    | diverge => simp [ho] at hv
-  | err x => simp [hr] at hv
-  | panic x => simp [hr] at hv
-  | diverge => simp [hr] at hv
+          · intro hfx
+            subst hfx
+            simpa using hu
+        · simp [hl] at hv
+  | err x => simp [hc] at hv
+  | panic x => simp [hc] at hv
+  | diverge => simp [hc] at hv
 
 end Relic.Vsix
